@@ -885,6 +885,233 @@ GENERATORS = {"grid": gen_grid, "anchors": gen_anchors}
 
 
 # ---------------------------------------------------------------------------------------------
+# descriptor logic of builder/grid.rs: parse_2d / parse_3d, check_parameters!  (C12; Props/C12Gen.lean)
+# ---------------------------------------------------------------------------------------------
+
+GRIDDESC_RS = os.environ.get("GEN_LEAN_GRIDDESC_RS", "/repo/honeycomb-core/src/cmap/builder/grid.rs")
+GRIDDESC_OUT = os.environ.get("GEN_LEAN_GRIDDESC_OUT", os.path.join(VERIF, "lean", "Honeycomb", "Gen", "GridDesc.lean"))
+GD_FIELDS = ["n_cells", "len_per_cell", "lens"]
+
+
+def gd_balanced(s, i, op, cl):
+    """index just after the bracket closing the one at s[i]"""
+    need(i < len(s) and s[i] == op, f"griddesc: expected {op!r} at ...{s[i:i + 30]!r}")
+    depth = 0
+    for j in range(i, len(s)):
+        if s[j] in "([{":
+            depth += 1
+        elif s[j] in ")]}":
+            depth -= 1
+            if depth == 0:
+                need(s[j] == cl, f"griddesc: bracket mismatch in {s[i:j + 1]!r}")
+                return j + 1
+    raise Shape("griddesc: unbalanced brackets")
+
+
+def gd_split_div(s):
+    parts, depth, cur = [], 0, []
+    for ch in s:
+        if ch in "([{":
+            depth += 1
+        elif ch in ")]}":
+            depth -= 1
+        if ch == "/" and depth == 0:
+            parts.append("".join(cur))
+            cur = []
+        else:
+            cur.append(ch)
+    parts.append("".join(cur))
+    return parts
+
+
+def gd_expr(s, env, where):
+    """Rust expression -> Lean `GdExpr` text.  env: identifier -> (field, component)"""
+    s = s.strip()
+    need(s, f"{where}: empty expression")
+    parts = gd_split_div(s)
+    if len(parts) > 1:
+        need(len(parts) == 2, f"{where}: chained division {s!r}")
+        return f"(.div {gd_expr(parts[0], env, where)} {gd_expr(parts[1], env, where)})"
+
+    def primary(r):
+        r = r.strip()
+        return bool(re.fullmatch(r"[A-Za-z_]\w*", r)) or (r.startswith("(") and gd_balanced(r, 0, "(", ")") == len(r))
+    m = re.fullmatch(r"(.*)\.to_usize\(\)\.unwrap\(\)", s)
+    if m:
+        need(primary(m.group(1)) or m.group(1).endswith(".ceil()"), f"{where}: receiver of to_usize in {s!r}")
+        return f"(.toUsize {gd_expr(m.group(1), env, where)})"
+    m = re.fullmatch(r"(.*)\.ceil\(\)", s)
+    if m:
+        need(primary(m.group(1)), f"{where}: receiver of ceil in {s!r}")
+        return f"(.ceil {gd_expr(m.group(1), env, where)})"
+    m = re.fullmatch(r"T::from(\(.*\))\.unwrap\(\)", s)
+    if m:
+        need(gd_balanced(m.group(1), 0, "(", ")") == len(m.group(1)), f"{where}: T::from argument in {s!r}")
+        return f"(.cast {gd_expr(m.group(1)[1:-1], env, where)})"
+    if s.startswith("("):
+        need(gd_balanced(s, 0, "(", ")") == len(s), f"{where}: expression {s!r}")
+        return gd_expr(s[1:-1], env, where)
+    m = re.fullmatch(r"self\.origin\[(\d+)\]", s)
+    if m:
+        return f"(.fld 3 {m.group(1)})"
+    need(re.fullmatch(r"[A-Za-z_]\w*", s), f"{where}: expression {s!r} not recognised")
+    need(s in env, f"{where}: identifier {s!r} is not bound by the pattern of this arm")
+    return f"(.fld {env[s][0]} {env[s][1]})"
+
+
+def gd_parse_fn(src, name, dim, variant):
+    where = f"griddesc[{name}]"
+    sig = fn_sig(src, name)
+    need(re.fullmatch(r"\(self\) -> Result<\(Vertex%d<T>, \[usize; %d\], \[T; %d\]\), BuilderError>" % (dim, dim, dim), sig),
+         f"{where}: signature {sig!r}")
+    body = " ".join(fn_body(src, name).split())
+    head = "match (" + ", ".join("self." + f for f in GD_FIELDS) + ") {"
+    need(body.startswith(head) and body.endswith("}"), f"{where}: body is not one match on (n_cells, len_per_cell, lens)")
+    s = body[len(head):-1].strip()
+    arms = []
+    i = 0
+    while i < len(s):
+        j = gd_balanced(s, i, "(", ")")
+        pat = split_top(s[i + 1:j - 1])
+        need(len(pat) == 3, f"{where}: pattern {s[i:j]!r}")
+        m = re.match(r"\s*=>\s*", s[j:])
+        need(m, f"{where}: `=>` expected after {s[i:j]!r}")
+        k = j + m.end()
+        if s[k] == "{":
+            e = gd_balanced(s, k, "{", "}")
+            rhs, block = s[k + 1:e - 1].strip(), True
+            i = e
+        else:
+            e = k
+            depth = 0
+            while e < len(s) and not (s[e] == "," and depth == 0):
+                depth += s[e] in "([{"
+                depth -= s[e] in ")]}"
+                e += 1
+            rhs, block = s[k:e].strip(), False
+            i = e
+        m = re.match(r"\s*,?\s*", s[i:])
+        i += m.end()
+        codes, env, anyname = [], {}, {}
+        for f, p in enumerate(pat):
+            if p == "None":
+                codes.append(0)
+            elif p == "_":
+                codes.append(3)
+            elif re.fullmatch(r"[a-z_]\w*", p):
+                codes.append(2)
+                anyname[p] = f
+            else:
+                m = re.fullmatch(r"Some\(\[(.*)\]\)", p)
+                need(m, f"{where}: pattern component {p!r}")
+                names = split_top(m.group(1))
+                need(len(names) == dim and all(re.fullmatch(r"[a-z_]\w*", n) and n != "_" for n in names),
+                     f"{where}: pattern component {p!r} does not bind {dim} names")
+                for c, n in enumerate(names):
+                    need(n not in env, f"{where}: name {n!r} bound twice")
+                    env[n] = (f, c)
+                codes.append(1)
+        m = re.fullmatch(r"Err\(BuilderError::(\w+)\)", rhs)
+        if m:
+            arms.append((codes, [], None, m.group(1)))
+            continue
+        need(block, f"{where}: arm body {rhs!r}")
+        rhs = rhs.replace("#[rustfmt::skip]", " ")
+        rhs = " ".join(rhs.split())
+        m = re.match(r'if (\w+)\.is_some\(\) \{ eprintln!\( ?"[^"]*" ?\); \} ?', rhs)
+        if m:   # a warning on stderr, no effect on the result; only allowed on a field bound as a whole
+            need(m.group(1) in anyname, f"{where}: is_some() test on {m.group(1)!r}")
+            rhs = rhs[m.end():]
+        checks = []
+        while True:
+            m = re.match(r'check_parameters!\((\w+), "([^"\\]*)"\); ?', rhs)
+            if not m:
+                break
+            need(m.group(1) in env, f"{where}: check_parameters! on unbound {m.group(1)!r}")
+            need(env[m.group(1)][0] in (1, 2), f"{where}: check_parameters! on a cell count")
+            checks.append((env[m.group(1)][0], env[m.group(1)][1], m.group(2)))
+            rhs = rhs[m.end():]
+        need(rhs.startswith("Ok((") and rhs.endswith("))") and gd_balanced(rhs, 2, "(", ")") == len(rhs),
+             f"{where}: arm does not end with Ok((origin, n, l)): {rhs!r}")
+        comps = split_top(rhs[4:-2])
+        need(len(comps) == 3, f"{where}: Ok tuple {rhs!r}")
+        m = re.fullmatch(r"Vertex%d\((.*)\)" % dim, comps[0])
+        need(m, f"{where}: origin {comps[0]!r}")
+        res = [split_top(m.group(1))]
+        for c in comps[1:]:
+            need(c.startswith("[") and gd_balanced(c, 0, "[", "]") == len(c), f"{where}: array {c!r}")
+            res.append(split_top(c[1:-1]))
+        need(all(len(r) == dim for r in res), f"{where}: Ok tuple components do not have {dim} entries")
+        res = [[gd_expr(x, env, where) for x in r] for r in res]
+        arms.append((codes, checks, res, variant))
+    return arms
+
+
+def gen_griddesc():
+    src = strip_comments(open(GRIDDESC_RS).read())
+    flat = " ".join(src.split())
+    need(len(re.findall(r"macro_rules! check_parameters\b", flat)) == 1, "griddesc: macro check_parameters! not found exactly once")
+    m = re.search(r"macro_rules! check_parameters \{ \(\$id: ident, \$msg: expr\) => \{ if ([^{}]*) \{ return Err\(BuilderError::(\w+)\(\$msg\)\); \} \}; \}", flat)
+    need(m, "griddesc: macro check_parameters! not recognised")
+    variant = m.group(2)
+    terms = [t.strip() for t in re.split(r"\|\|?", m.group(1))]
+    known = {"$id.is_sign_negative()": "neg", "$id.is_zero()": "zero"}
+    need(all(t in known for t in terms) and len(set(terms)) == len(terms), f"griddesc: check_parameters! condition {m.group(1)!r}")
+    flags = {known[t] for t in terms}
+    need(len(re.findall(r"check_parameters!", flat)) == sum(len(re.findall(r"check_parameters!", fn_body(src, f))) for f in ("parse_2d", "parse_3d")),
+         "griddesc: check_parameters! used outside parse_2d / parse_3d")
+    # the setters and the default: every optional field starts as None and is set to Some(argument)
+    for f in GD_FIELDS:
+        need(re.search(r"fn %s\(mut self, %s: \[\w+; D\]\) -> Self \{ self\.%s = Some\(%s\); self \}" % (f, f, f, f), flat),
+             f"griddesc: setter {f} not recognised")
+    need(re.search(r"fn origin\(mut self, origin: \[T; D\]\) -> Self \{ self\.origin = origin; self \}", flat), "griddesc: setter origin not recognised")
+    need(re.search(r"fn split_cells\(mut self, split: bool\) -> Self \{ self\.split_cells = split; self \}", flat), "griddesc: setter split_cells not recognised")
+    need(re.search(r"fn default\(\) -> Self \{ Self \{ origin: \[T::zero\(\); D\], n_cells: None, len_per_cell: None, lens: None, split_cells: false, \} \}", flat),
+         "griddesc: Default impl not recognised")
+    a2 = gd_parse_fn(src, "parse_2d", 2, variant)
+    a3 = gd_parse_fn(src, "parse_3d", 3, variant)
+
+    def arm_txt(a):
+        codes, checks, res, var = a
+        ch = ", ".join(f'({f}, {c}, "{msg}")' for f, c, msg in checks)
+        if res is None:
+            r = "none"
+        else:
+            r = "some (" + ", ".join("[" + ", ".join(x) + "]" for x in res) + ")"
+        return f'{{ pat := [{", ".join(map(str, codes))}], checks := [{ch}], res := {r}, variant := "{var}" }}'
+
+    out = ["/-\n  GENERATED by /verif/tools/gen_lean.py (generator `griddesc`) from /repo/honeycomb-core/src/cmap/builder/grid.rs — DO NOT EDIT.\n"
+           "  The descriptor logic: `GridDescriptor::<2, T>::parse_2d`, `GridDescriptor::<3, T>::parse_3d` and the macro `check_parameters!`.\n\n"
+           "  Fields: 0 = n_cells, 1 = len_per_cell, 2 = lens, 3 = origin (never optional).  An arm of `match (self.n_cells, self.len_per_cell,\n"
+           "  self.lens)` is: `pat`, one code per matched field (0 = `None`, 1 = `Some([..])` with every component bound, 2 = bound as a whole\n"
+           "  (matches anything), 3 = `_`); `checks`, the `check_parameters!(id, msg)` calls in source order as (field, component, message);\n"
+           "  `res`, the three arrays of `Ok((VertexD(..), [..], [..]))` as expression trees (`none`: the arm is `Err(BuilderError::variant)`);\n"
+           "  `variant`: the error variant of the macro (arms with checks) or of the arm itself.  Arms are tried in source order.\n"
+           "  `gdCheckNeg` / `gdCheckZero`: the disjuncts `$id.is_sign_negative()` / `$id.is_zero()` of the macro's condition.\n"
+           "  Props/C12Gen.lean gives the data its meaning and proves it EQUAL to parse2 / parse3 of Model/Grid.lean.\n-/\n",
+           "namespace HC.Gen\n",
+           "/-- expression trees: `fld f i` = component `i` of field `f`; `cast` = `T::from(_).unwrap()`; `div` = `/`; `ceil` = `.ceil()`;\n"
+           "    `toUsize` = `.to_usize().unwrap()` -/",
+           "inductive GdExpr where\n  | fld (f i : Nat)\n  | cast (e : GdExpr)\n  | div (a b : GdExpr)\n  | ceil (e : GdExpr)\n  | toUsize (e : GdExpr)\n  deriving Repr, DecidableEq\n",
+           "structure GdArm where\n  pat : List Nat\n  checks : List (Nat × Nat × String)\n  res : Option (List GdExpr × List GdExpr × List GdExpr)\n  variant : String\n  deriving Repr, DecidableEq\n",
+           f"def gdCheckNeg : Bool := {'true' if 'neg' in flags else 'false'}",
+           f"def gdCheckZero : Bool := {'true' if 'zero' in flags else 'false'}\n"]
+    for nm, arms in (("gdParse2", a2), ("gdParse3", a3)):
+        out.append(f"def {nm} : List GdArm :=\n  [ " + ",\n    ".join(arm_txt(a) for a in arms) + " ]\n")
+    out.append("end HC.Gen\n")
+    txt = "\n".join(out)
+    os.makedirs(os.path.dirname(GRIDDESC_OUT), exist_ok=True)
+    old = open(GRIDDESC_OUT).read() if os.path.exists(GRIDDESC_OUT) else None
+    if old != txt:
+        open(GRIDDESC_OUT, "w").write(txt)
+    return f"griddesc: {len(a2)}+{len(a3)} arms, {sum(len(a[1]) for a in a2)}+{sum(len(a[1]) for a in a3)} checks -> " \
+           f"{os.path.relpath(GRIDDESC_OUT, VERIF)}" + (" (unchanged)" if old == txt else " (rewritten)")
+
+
+GENERATORS["griddesc"] = gen_griddesc
+
+
+# ---------------------------------------------------------------------------------------------
 # orbit arms: which images each OrbitPolicy examines (dim2/orbits.rs, dim3/orbits.rs) and which images the 3-D
 # identifier walks push (dim3/basic_ops.rs)
 # ---------------------------------------------------------------------------------------------
@@ -3078,6 +3305,162 @@ def gen_fan():
 GENERATORS["fan"] = gen_fan
 
 
+# ---------------------------------------------------------------------------------------------
+# earclip: honeycomb-kernels/src/triangulation/ear_clipping.rs — `earclip_cell_countercw`, `earclip_cell_cw`, `process_cell`
+# (Gen/EarClip.lean, interpreted and proved equal to Model/Kernels/EarClip.lean in Props/C13GenB.lean)
+# ---------------------------------------------------------------------------------------------
+EARCLIP_RS = os.environ.get("GEN_LEAN_EARCLIP_RS", "/repo/honeycomb-kernels/src/triangulation/ear_clipping.rs")
+EARCLIP_OUT = os.environ.get("GEN_LEAN_EARCLIP_OUT", os.path.join(VERIF, "lean", "Honeycomb", "Gen", "EarClip.lean"))
+EARCLIP_OPS = [">", "<", ">=", "<="]
+EARCLIP_OP_RX = r">=|<=|>|<"
+
+
+def earclip_entry(src, name):
+    """`process_cell(t, cmap, face_id, new_darts, |v1, v2, v3| { cross(va, vb, vc) OP T::zero() })` -> [a, b, c, op]"""
+    need(fan_compact(fn_sig(src, name)) == FAN_SIG, f"earclip: {name}: signature")
+    body = fan_compact(fn_body(src, name))
+    m = re.fullmatch(fan_rx("process_cell(t, cmap, face_id, new_darts, |v1, v2, v3| { "
+                            "Vertex2::cross_product_from_vertices(@A@, @B@, @C@) @OP@ T::zero() })",
+                            A=r"v[123]", B=r"v[123]", C=r"v[123]", OP=EARCLIP_OP_RX), body)
+    need(m, f"earclip: {name}: unexpected body `{body[:120]}`")
+    return [int(m.group(1)[1]), int(m.group(2)[1]), int(m.group(3)[1]), EARCLIP_OPS.index(m.group(4))]
+
+
+def earclip_off(txt, var, where):
+    """`var` -> 0; `(var + k) % n` -> k (k >= 1)"""
+    if txt == var:
+        return 0
+    m = re.fullmatch(r"\(" + re.escape(var) + r"\+(\d+)\)%n", txt)
+    need(m and int(m.group(1)) >= 1, f"earclip: {where}: unexpected index `{txt}`")
+    return int(m.group(1))
+
+
+def earclip_process(src, variants, msgs):
+    where = "process_cell"
+    need(fan_compact(fn_sig(src, where)) == FAN_SIG.replace(
+        "new_darts:&[DartIdType],)", "new_darts:&[DartIdType],is_inside_fn:impl FnOnce(&Vertex2<T>,&Vertex2<T>,&Vertex2<T>)->bool+Copy,)"),
+        f"earclip: {where}: signature")
+    body = fan_compact(fn_body(src, where))
+    m, pos = fan_take(body, 0, fan_rx(
+        "let mut darts: SmallVec<DartIdType, 16> = SmallVec::new(); let mut vertices: SmallVec<Vertex2<T>, 16> = SmallVec::new(); "
+        + FAN_ORBIT +
+        " for &d in &darts { let vid = cmap.vertex_id_transac(t, d)?; let v = if let Some(val) = cmap.read_vertex(t, vid)? { val } "
+        "else { abort(TriangulateError::@V@(@MSG@))? }; vertices.push(v); } "
+        "if let Err(e) = check_requirements(darts.len(), new_darts.len()) { abort(e)?; } "
+        "let mut darts = darts.clone(); let mut vertices = vertices.clone(); let mut n = darts.len(); "
+        "for sl in new_darts.chunks_exact(2)",
+        POL=r"\w+", V=r"\w+", MSG=r'"[^"]*",?'), where)
+    need(m.group(1) in FAN_POLICIES, f"earclip: {where}: policy {m.group(1)}")
+    pol = FAN_POLICIES.index(m.group(1))
+    need(m.group(2) in variants, f"earclip: {where}: variant {m.group(2)}")
+    msgs.append(m.group(3).strip('",').replace(" ", "-"))
+    undef = [variants.index(m.group(2)), 3, len(msgs) - 1]
+    end = fan_block_end(body, pos, where)
+    lbody = body[pos + 1:end - 1]
+    m = re.fullmatch(fan_rx('assert_eq!(n, @K@, @MSG@); Ok(())', K=r"\d+", MSG=r'"[^"]*",?'), body[end:])
+    need(m, f"earclip: {where}: unexpected text after the loop `{body[end:][:90]}`")
+    final_n = int(m.group(1))
+    vidx = r"\*idx|\(\*idx\+\d+\)%n"
+    didx = r"ear|\(ear\+\d+\)%n"
+    vv = r"v[123]"
+    m, p = fan_take(lbody, 0, fan_rx(
+        "let &[nd1, nd2] = sl else { unreachable!() }; let Some(ear) = (@LO@..n).find(|idx| { "
+        "let v1 = &vertices[@I1@]; let v2 = &vertices[@I2@]; let v3 = &vertices[@I3@]; "
+        "let is_inside = is_inside_fn(@A@, @B@, @C@); "
+        "let no_overlap = vertices.iter().filter(|v| (**v != *v1) && (**v != *v2) && (**v != *v3)).all(|v| { "
+        "let sig12v = Vertex2::cross_product_from_vertices(@P1@, @Q1@, v); "
+        "let sig23v = Vertex2::cross_product_from_vertices(@P2@, @Q2@, v); "
+        "let sig31v = Vertex2::cross_product_from_vertices(@P3@, @Q3@, v); "
+        "let has_pos = (sig12v @X1@ T::zero()) || (sig23v @X2@ T::zero()) || (sig31v @X3@ T::zero()); "
+        "let has_neg = (sig12v @Y1@ T::zero()) || (sig23v @Y2@ T::zero()) || (sig31v @Y3@ T::zero()); "
+        "has_pos && has_neg }); is_inside && no_overlap }) else { abort(TriangulateError::@NE@)? }; "
+        "let @E1@ = darts[@J1@]; let @E2@ = darts[@J2@];",
+        LO=r"\d+", I1=vidx, I2=vidx, I3=vidx, A=vv, B=vv, C=vv, P1=vv, Q1=vv, P2=vv, Q2=vv, P3=vv, Q3=vv,
+        X1=EARCLIP_OP_RX, X2=EARCLIP_OP_RX, X3=EARCLIP_OP_RX, Y1=EARCLIP_OP_RX, Y2=EARCLIP_OP_RX, Y3=EARCLIP_OP_RX,
+        NE=r"\w+", E1=r"\w+", J1=didx, E2=r"\w+", J2=didx), where + " (loop)")
+    g = m.groups()
+    lo = int(g[0])
+    vidxs = [earclip_off(x, "*idx", where) for x in g[1:4]]
+    inside_args = [int(x[1]) for x in g[4:7]]
+    sigs = [[int(g[7][1]), int(g[8][1])], [int(g[9][1]), int(g[10][1])], [int(g[11][1]), int(g[12][1])]]
+    pos_ops = [EARCLIP_OPS.index(x) for x in g[13:16]]
+    neg_ops = [EARCLIP_OPS.index(x) for x in g[16:19]]
+    need(g[19] in variants, f"earclip: {where}: variant {g[19]}")
+    no_ear = [variants.index(g[19]), 0, 0]
+    e1, e2 = g[20], g[22]
+    need(e1 != e2 and not {e1, e2} & {"nd1", "nd2", "ear", "n", "darts", "vertices"}, f"earclip: {where}: names of the ear darts")
+    picks = [earclip_off(g[21], "ear", where), earclip_off(g[23], "ear", where)]
+    names = {e1: 0, e2: 1, "nd1": 2, "nd2": 3}
+    ms = re.search(fan_rx("darts.remove((ear + @KR@) % n); darts.push(@PU@); darts.swap_remove(ear); "
+                          "vertices.remove((ear + @KV@) % n); n -= 1;", KR=r"\d+", PU=r"\*?\w+", KV=r"\d+") + "$", lbody)
+    need(ms and ms.start() >= p, f"earclip: {where}: the loop must end with the dart / vertex list bookkeeping and `n -= 1;`")
+    step = fan_straight(lbody[p:ms.start()], names, {}, where + " (loop)")
+    surgery = [int(ms.group(1)), fan_operand(ms.group(2), names, where), int(ms.group(3))]
+    need(surgery[0] >= 1 and surgery[2] >= 1, f"earclip: {where}: bookkeeping offsets")
+    return pol, undef, final_n, [lo] + vidxs, inside_args, sigs, pos_ops, neg_ops, no_ear, picks, step, surgery
+
+
+def gen_earclip():
+    msrc = strip_comments(open(FAN_MOD_RS).read())
+    src = strip_comments(open(EARCLIP_RS).read())
+    variants, msgs = fan_enum(msrc), []
+    ccw = earclip_entry(src, "earclip_cell_countercw")
+    cw = earclip_entry(src, "earclip_cell_cw")
+    pol, undef, final_n, search, inside_args, sigs, pos_ops, neg_ops, no_ear, picks, step, surgery = earclip_process(src, variants, msgs)
+
+    def nl(a):
+        return "[" + ", ".join(map(str, a)) + "]"
+
+    def tab(rows):
+        return "[" + ", ".join(f"({op}, {nl(a)})" for op, a in rows) + "]"
+
+    out = ["/-\n  GENERATED by /verif/tools/gen_lean.py from\n  /repo/honeycomb-kernels/src/triangulation/ear_clipping.rs (and the enum of mod.rs) — DO NOT EDIT.\n\n"
+           "  `ccwInside` / `cwInside` = [a, b, c, op]: the closure `|v1, v2, v3| { Vertex2::cross_product_from_vertices(v<a>, v<b>, v<c>)\n"
+           "    <op> T::zero() }` handed to `process_cell` by `earclip_cell_countercw` / `earclip_cell_cw`; op: 0 `>`, 1 `<`, 2 `>=`, 3 `<=`.\n"
+           "  `process_cell`: the collecting loops exactly as in fan.rs (`policy`: index in Vertex, VertexLinear, Edge, Face, FaceLinear;\n"
+           "    `undef` = error action [variant, 3, message index into `msgs`] of an undefined vertex), `if let Err(e) =\n"
+           "    check_requirements(darts.len(), new_darts.len()) { abort(e)?; }`, `let mut n = darts.len();`, then\n"
+           "    `for sl in new_darts.chunks_exact(2) { let &[nd1, nd2] = sl else { unreachable!() }; <search> <step> <bookkeeping> }`\n"
+           "    `assert_eq!(n, <finalN>, ..); Ok(())`.\n"
+           "  <search> = `let Some(ear) = (<lo>..n).find(|idx| { let v1 = &vertices[i1]; let v2 = &vertices[i2]; let v3 = &vertices[i3];`\n"
+           "    `let is_inside = is_inside_fn(v<a>, v<b>, v<c>); let no_overlap = vertices.iter().filter(|v| (**v != *v1) && (**v != *v2)`\n"
+           "    `&& (**v != *v3)).all(|v| { let sig12v = cross(v<p1>, v<q1>, v); let sig23v = cross(v<p2>, v<q2>, v); let sig31v =`\n"
+           "    `cross(v<p3>, v<q3>, v); let has_pos = (sig12v <x1> 0) || (sig23v <x2> 0) || (sig31v <x3> 0); let has_neg = (sig12v <y1> 0)`\n"
+           "    `|| (sig23v <y2> 0) || (sig31v <y3> 0); has_pos && has_neg }); is_inside && no_overlap }) else { abort(<noEar>)? };`\n"
+           "    `search` = [lo, i1, i2, i3] with index 0 = `*idx`, k ≥ 1 = `(*idx + k) % n`; `insideArgs` = [a, b, c];\n"
+           "    `sigs` = [[p1, q1], [p2, q2], [p3, q3]]; `posOps` = [x1, x2, x3]; `negOps` = [y1, y2, y3] (op codes as above).\n"
+           "  <step> = `let e1 = darts[j1]; let e2 = darts[j2];` (`picks` = [j1, j2]: 0 = `ear`, k ≥ 1 = `(ear + k) % n`) followed by\n"
+           "    `stepBody`, instructions as in Gen/Fan.lean ((1, [i, a]) beta_transac::<i>; (50, [0, I, a, b]) sew::<I>(a, b);\n"
+           "    (50, [1, I, a]) unsew::<I>(a)), operands 0 = e1, 1 = e2, 2 = nd1, 3 = nd2, 20 + j = the j-th variable bound.\n"
+           "  <bookkeeping> = `darts.remove((ear + kr) % n); darts.push(<operand pu>); darts.swap_remove(ear);`\n"
+           "    `vertices.remove((ear + kv) % n); n -= 1;` with `surgery` = [kr, pu, kv].\n"
+           "  Props/C13GenB.lean interprets these tables and proves them EQUAL to Model/Kernels/EarClip.lean.\n-/\n",
+           "namespace HC.Gen.EarClip\n",
+           "/-- `&'static str` payloads -/\ndef msgs : List String := [" + ", ".join(f'"{s}"' for s in msgs) + "]\n",
+           "/-- `earclip_cell_countercw`: the orientation test -/\ndef ccwInside : List Nat := " + nl(ccw) + "\n",
+           "/-- `earclip_cell_cw`: the orientation test -/\ndef cwInside : List Nat := " + nl(cw) + "\n",
+           f"/-- `process_cell`: orbit policy -/\ndef policy : Nat := {pol}\n",
+           "/-- `process_cell`: undefined vertex -/\ndef undef : List Nat := " + nl(undef) + "\n",
+           f"/-- `process_cell`: the closing `assert_eq!(n, …)` -/\ndef finalN : Nat := {final_n}\n",
+           "/-- the ear search: range start and the three vertex indices -/\ndef search : List Nat := " + nl(search) + "\n",
+           "/-- the ear search: arguments of `is_inside_fn` -/\ndef insideArgs : List Nat := " + nl(inside_args) + "\n",
+           "/-- the ear search: first two arguments of the three cross products -/\ndef sigs : List (List Nat) := [" + ", ".join(nl(s) for s in sigs) + "]\n",
+           "/-- the ear search: comparisons of `has_pos` -/\ndef posOps : List Nat := " + nl(pos_ops) + "\n",
+           "/-- the ear search: comparisons of `has_neg` -/\ndef negOps : List Nat := " + nl(neg_ops) + "\n",
+           "/-- no ear found -/\ndef noEar : List Nat := " + nl(no_ear) + "\n",
+           "/-- the two darts of the ear -/\ndef picks : List Nat := " + nl(picks) + "\n",
+           "/-- one clipping step: reads, unsews, sews -/\ndef stepBody : List (Nat × List Nat) := " + tab(step) + "\n",
+           "/-- the dart / vertex list bookkeeping -/\ndef surgery : List Nat := " + nl(surgery) + "\n",
+           "end HC.Gen.EarClip\n"]
+    txt = "\n".join(out)
+    if not os.path.exists(EARCLIP_OUT) or open(EARCLIP_OUT).read() != txt:
+        open(EARCLIP_OUT, "w").write(txt)
+    return f"gen_lean: earclip ok ({len(step)} step instructions)"
+
+
+GENERATORS["earclip"] = gen_earclip
+
+
 GENERATORS["dispatch3"] = gen_dispatch3
 
 
@@ -3803,6 +4186,148 @@ def collapse_guard(src):
                 table=table, msgs=[collapse_slug(g["msg1"]), collapse_slug(g["msg2"])])
 
 
+def collapse_top(src, errs):
+    """the top level `collapse_edge`: instructions and the operand returned"""
+    where = "remeshing/collapse.rs collapse_edge"
+    sig = remesh_norm(fn_sig(src, "collapse_edge"))
+    need(sig == "<T:CoordsFloat>(t:&mut Transaction,map:&CMap2<T>,e:EdgeIdType,)->TransactionClosureResult<VertexIdType,EdgeCollapseError>",
+         f"{where}: signature {sig!r}")
+    body = remesh_norm(fn_body(src, "collapse_edge"))
+    names = {"e": (0, "n")}
+    for c, v in COLLAPSE_NULL.items():
+        names[c] = (v, "n")
+    A = r"(\w+)" + REMESH_CAST
+    B = r"map\.beta_transac::<(\d)>\(t," + A + r"\)\?"
+    AB = r"\{abort\(EdgeCollapseError::(\w+)\)\?;\}"
+    out, pos, nv = [], 0, [0]
+
+    def val(tok):
+        need(tok in names, f"{where}: unknown name {tok!r}")
+        return names[tok][0]
+
+    def err(v):
+        need(v in errs, f"{where}: unknown error variant {v}")
+        return errs.index(v)
+
+    def bind(name):
+        need(name not in names, f"{where}: {name} bound twice")
+        names[name] = (20 + nv[0], "n")
+        nv[0] += 1
+
+    def let(name, e):
+        mm = re.fullmatch(A, e)
+        if mm:
+            need(name not in names, f"{where}: {name} bound twice")
+            names[name] = (val(mm.group(1)), "n")
+            return
+        mm = re.fullmatch(B, e)
+        need(mm, f"{where}: expression not recognised: {e[:90]!r}")
+        out.append((1, [int(mm.group(1)), val(mm.group(2))]))
+        bind(name)
+
+    m = re.fullmatch(r"(.*;|.*\})Ok\((\w+)\)", body)
+    need(m, f"{where}: does not end with Ok(<name>)")
+    body, result = m.group(1), m.group(2)
+    while pos < len(body):
+        rest = body[pos:]
+        m = re.match("if " + A + "==" + A + AB, rest)
+        if m:
+            out.append((0, [val(m.group(1)), val(m.group(2)), err(m.group(3))]))
+            pos += m.end()
+            continue
+        m = re.match("if " + B + "!=" + A + AB, rest)
+        if m:
+            out.append((24, [int(m.group(1)), val(m.group(2)), val(m.group(3)), err(m.group(4))]))
+            pos += m.end()
+            continue
+        m = re.match("if " + A + "!=" + A + "&&" + B + "!=" + A + AB, rest)
+        if m:
+            g = m.groups()
+            out.append((25, [val(g[0]), val(g[1]), int(g[2]), val(g[3]), val(g[4]), err(g[5])]))
+            pos += m.end()
+            continue
+        m = re.match(r"let\((\w+),(\w+)\)=\(([^;{}]+)\);", rest)
+        if m:
+            parts = [p for p in split_top(m.group(3)) if p]
+            need(len(parts) == 2, f"{where}: tuple `let` with {len(parts)} components")
+            let(m.group(1), parts[0])
+            let(m.group(2), parts[1])
+            pos += m.end()
+            continue
+        m = re.match(r"let (\w+)=match is_collapsible\(t,map," + A + r"\)\?\{", rest)
+        if m:
+            arms_txt, end = block_after(rest, m.end() - 1, where)
+            need(rest.startswith(";", end), f"{where}: `;` expected after the match")
+            arms = {}
+            tup = r"\(" + A + "," + A + "," + A + r"\)"
+            for arm in [a for a in split_top(arms_txt) if a]:
+                mm = re.fullmatch(r"Collapsible::(\w+)=>try_or_coerce!\((\w+)\(t,map," + tup + "," + tup + r",?\),EdgeCollapseError,?\)", arm)
+                need(mm, f"{where}: arm not recognised: {arm!r}")
+                g = mm.groups()
+                need(g[0] in COLLAPSE_CHOICE and g[0] not in arms, f"{where}: arm {g[0]!r}")
+                need(g[1] in COLLAPSE_EDGE, f"{where}: unknown callee {g[1]!r}")
+                arms[g[0]] = [COLLAPSE_EDGE[g[1]]] + [val(x) for x in g[2:]]
+            need(sorted(arms) == sorted(COLLAPSE_CHOICE), f"{where}: arms {sorted(arms)}")
+            out.append((26, [val(m.group(2))] + [x for c in COLLAPSE_CHOICE for x in arms[c]]))
+            bind(m.group(1))
+            pos += end + 1
+            continue
+        m = re.match(r"if!is_orbit_orientation_consistent\(t,map," + A + r"\)\?" + AB, rest)
+        if m:
+            out.append((27, [val(m.group(1)), err(m.group(2))]))
+            pos += m.end()
+            continue
+        raise Shape(f"{where}: statement not recognised at {rest[:90]!r}")
+    need(result in names, f"{where}: result {result!r}")
+    return out, names[result][0]
+
+
+COLLAPSE_ROUTINES_RS = os.environ.get("GEN_LEAN_ROUTINES_RS", "/repo/honeycomb-kernels/src/utils/routines.rs")
+
+
+def collapse_orient(src):
+    """`is_orbit_orientation_consistent` (utils/routines.rs), a rigid shape: per triangle block [i1, s1, i2, s2, xa, xb, ra, rb, ca, cb, cc]"""
+    where = "utils/routines.rs is_orbit_orientation_consistent"
+    sig = remesh_norm(fn_sig(src, "is_orbit_orientation_consistent"))
+    need(sig == "<T:CoordsFloat>(t:&mut Transaction,map:&CMap2<T>,vid:VertexIdType,)->StmClosureResult<bool>", f"{where}: signature {sig!r}")
+    body = remesh_norm(fn_body(src, "is_orbit_orientation_consistent"))
+
+    def blk(p):
+        rv = lambda j: (r"let (?P<%sw%d>\w+)=if let Some\((?P<%sp%d>\w+)\)=map\.read_vertex\(t,(?P<%sr%d>\w+)\)\?\{(?P<%st%d>\w+)\}else\{retry\(\)\?\};" % (p, j, p, j, p, j, p, j))
+        return (r"let (?P<%sb1>\w+)=map\.beta_transac::<(?P<%si1>\d)>\(t,(?P<%ss1>\w+)\)\?;let (?P<%sb2>\w+)=map\.beta_transac::<(?P<%si2>\d)>\(t,(?P<%ss2>\w+)\)\?;"
+                r"let (?P<%sv1>\w+)=map\.vertex_id_transac\(t,(?P<%sxa>\w+)\)\?;let (?P<%sv2>\w+)=map\.vertex_id_transac\(t,(?P<%sxb>\w+)\)\?;" % ((p,) * 10)
+                + rv(1) + rv(2) + r"let crossp=Vertex2::cross_product_from_vertices\(&(?P<%sca>\w+),&(?P<%scb>\w+),&(?P<%scc>\w+)\);" % (p, p, p))
+    pat = (r"if let Some\((?P<nv>\w+)\)=map\.read_vertex\(t,vid\)\?\{let mut tmp:SmallVec<DartIdType,10>=SmallVec::new\(\);"
+           r"for d in map\.orbit_transac\(t,OrbitPolicy::Vertex,vid\)\{tmp\.push\(d\?\);\}"
+           r"let ref_sign=\{let d=tmp\[0\];" + blk("r") + r"(?P<rz>if crossp\.is_zero\(\)\{return Ok\(false\);\})?crossp\.signum\(\)\};"
+           r"for&d in&tmp\[1\.\.\]\{" + blk("l") + r"if (?P<lz>crossp\.is_zero\(\)\|\|)?ref_sign!=crossp\.signum\(\)\{return Ok\(false\);\}\}"
+           r"\}else\{retry\(\)\?;\}Ok\(true\)")
+    m = re.fullmatch(pat, body)
+    need(m, f"{where}: body not of the expected shape: {body[:100]!r}")
+    g = m.groupdict()
+
+    def one(p):
+        darts = {"d": 0}
+        def idx(tbl, x, what):
+            need(x in tbl, f"{where}: {what} {x!r}")
+            return tbl[x]
+        s1 = idx(darts, g[p + "s1"], "dart")
+        need(g[p + "b1"] not in darts, f"{where}: {g[p + 'b1']} bound twice")
+        darts[g[p + "b1"]] = 1
+        s2 = idx(darts, g[p + "s2"], "dart")
+        need(g[p + "b2"] not in darts, f"{where}: {g[p + 'b2']} bound twice")
+        darts[g[p + "b2"]] = 2
+        xa, xb = idx(darts, g[p + "xa"], "dart"), idx(darts, g[p + "xb"], "dart")
+        need(g[p + "v1"] != g[p + "v2"] and g[p + "v1"] not in darts and g[p + "v2"] not in darts, f"{where}: identifier names")
+        ids = {g[p + "v1"]: 0, g[p + "v2"]: 1}
+        ra, rb = idx(ids, g[p + "r1"], "identifier"), idx(ids, g[p + "r2"], "identifier")
+        need(g[p + "p1"] == g[p + "t1"] and g[p + "p2"] == g[p + "t2"], f"{where}: `if let Some(v) = … {{ v }}`")
+        need(len({g["nv"], g[p + "w1"], g[p + "w2"]}) == 3, f"{where}: value names")
+        vals = {g["nv"]: 0, g[p + "w1"]: 1, g[p + "w2"]: 2}
+        return [int(g[p + "i1"]), s1, int(g[p + "i2"]), s2, xa, xb, ra, rb] + [idx(vals, g[p + c], "value") for c in ("ca", "cb", "cc")]
+    return one("r"), one("l"), g["rz"] is not None, g["lz"] is not None
+
+
 def gen_collapse():
     src = strip_comments(open(COLLAPSE_RS).read())
     errs = remesh_enum(src, "EdgeCollapseError")
@@ -3815,6 +4340,8 @@ def gen_collapse():
            ("collapse_edge_to_midpoint", collapse_fn(src, "collapse_edge_to_midpoint", 2, "VertexIdType", "SewError")),
            ("collapse_edge_to_base", collapse_fn(src, "collapse_edge_to_base", 2, "VertexIdType", "EdgeCollapseError"))]
     gd = collapse_guard(src)
+    top, topres = collapse_top(src, errs)
+    oref, oloop, orz, olz = collapse_orient(strip_comments(open(COLLAPSE_ROUTINES_RS).read()))
     lst = lambda ins: "[" + ", ".join(f"({op}, [{', '.join(map(str, a))}])" for op, a in ins) + "]"
     out = ["/-\n  GENERATED by /verif/tools/gen_lean.py from /repo/honeycomb-kernels/src/remeshing/collapse.rs — DO NOT EDIT.\n"
            "  Regenerated by tools/check.py before every build of a module that imports it.\n\n"
@@ -3852,6 +4379,21 @@ def gen_collapse():
                f"def guardEqs : Nat × Nat := ({gd['eqs'][0]}, {gd['eqs'][1]})\n"
                "def guardTable : List (Bool × Bool × Nat) := [" + ", ".join(f"({a}, {b}, {c})" for a, b, c in gd["table"]) + "]\n"
                f"def guardMsgs : String × String := (\"{gd['msgs'][0]}\", \"{gd['msgs'][1]}\")\n")
+    out.append("/-- `collapse_edge`: (0, [a, b, v]) if a == b { abort(<variant v>)?; } · (1, [i, a]) as above ·\n"
+               "    (24, [i, a, b, v]) if map.beta_transac::<i>(t, a)? != b { abort(v)?; } · (25, [a, c, i, b, d, v]) if a != c && map.beta_transac::<i>(t, b)? != d { abort(v)?; } ·\n"
+               "    (26, [x, then per variant Average, Left, Right: f, a1 … a6]) let y = match is_collapsible(t, map, x)? { variant => try_or_coerce!(f(t, map, (a1, a2, a3), (a4, a5, a6)), …) }\n"
+               "    with f: 0 = collapse_edge_to_midpoint, 1 = collapse_edge_to_base · (27, [a, v]) if !is_orbit_orientation_consistent(t, map, a)? { abort(v)?; };\n"
+               "    operand 0 = e; v indexes `collapseErrors` -/\n"
+               f"def collapseEdge : List (Nat × List Nat) := {lst(top)}\n\ndef collapseEdgeResult : Nat := {topres}\n")
+    out.append("/-- `is_orbit_orientation_consistent` (honeycomb-kernels/src/utils/routines.rs; rigid shape: read_vertex(vid) else retry, the vertex orbit collected,\n"
+               "    the reference triangle `tmp[0]`, the loop over `tmp[1..]`, `Ok(true)`).  A triangle block [i1, s1, i2, s2, xa, xb, ra, rb, ca, cb, cc]:\n"
+               "    x1 = beta::<i1>(dart s1), x2 = beta::<i2>(dart s2) (darts: 0 = d, 1 = x1, 2 = x2); vid1 = vertex_id(dart xa), vid2 = vertex_id(dart xb);\n"
+               "    v1 = read_vertex(identifier ra) else retry, v2 = read_vertex(identifier rb) else retry (identifiers: 0 = vid1, 1 = vid2);\n"
+               "    crossp = cross_product_from_vertices(&value ca, &value cb, &value cc) (values: 0 = new_v, 1 = v1, 2 = v2).\n"
+               "    `orientRefZero`: the reference block answers Ok(false) when `crossp.is_zero()`, before `crossp.signum()`;\n"
+               "    `orientLoopZero`: the loop test is `crossp.is_zero() || ref_sign != crossp.signum()` (false: only the second disjunct) -/\n"
+               f"def orientRef : List Nat := {oref}\ndef orientLoop : List Nat := {oloop}\n"
+               f"def orientRefZero : Bool := {str(orz).lower()}\ndef orientLoopZero : Bool := {str(olz).lower()}\n")
     out.append("end HC.Gen.Collapse\n")
     txt = "\n".join(out)
     if not os.path.exists(COLLAPSE_OUT) or open(COLLAPSE_OUT).read() != txt:
